@@ -256,6 +256,8 @@ def _equal(kind, a, b):
                     return False
         return True
     try:
+        if "index" in getattr(b, "dims", {}) and "time" not in getattr(b, "dims", {}):
+            return _equal("csv", a, b)     # a CSV table converted to NetCDF
         return bool(a.equals(b))
     except Exception:  # noqa
         return False
@@ -517,6 +519,12 @@ class Run:
             ext = (EXTS["pickle"] + EXTS["pickle_z"])[o["ext"] % 6] \
                 if o["ext"] else ms.ext
             tkind = "pickle_z" if ext in EXTS["pickle_z"] else "pickle"
+        as_fileset = o["as_fileset"]
+        if convert and ms.kind == "csv" and o["ext"] % 2:
+            # cross-handler conversion: CSV table -> NetCDF4 (needs a target
+            # FileSet of its own: a path string keeps the source's handler)
+            ext, tkind, as_fileset = ".nc", "nc", True
+            self.sim.probe("convert_csv_to_netcdf")
         subdir = f"t{len(self.sets)}_{o['dir']}"
         dst = MSet(len(self.sets), o["tmpl"], ext, tkind, self.root, subdir, self.w)
         # new names under the harness's own formatter; refuse colliding plans
@@ -526,7 +534,7 @@ class Run:
             if np_ in plan or np_ in self.files:
                 return
             plan[np_] = f
-        if o["as_fileset"]:
+        if as_fileset:
             target_ms = self.make_set(o["tmpl"], ext, tkind, subdir)
             target = target_ms.obj
         else:
